@@ -55,6 +55,11 @@ func (h *vfHijackWriter) Hijack() (net.Conn, *bufio.ReadWriter, error) {
 }
 
 func (w *vfWorld) subscribe(id int, mode string) {
+	w.subscribeStart(id, mode)
+	synctest.Wait()
+}
+
+func (w *vfWorld) subscribeStart(id int, mode string) {
 	server, client := net.Pipe()
 	sub := &vfSubscriber{id: id, mode: mode, client: client, resume: make(chan struct{}, 1), everStalled: mode == "stalled"}
 	if mode == "stalled" {
@@ -85,15 +90,28 @@ func (w *vfWorld) subscribe(id int, mode string) {
 			sub.events = append(sub.events, ev)
 		}
 	}()
-	synctest.Wait()
 }
 
 func init() {
 	vfExtraOps["subscribe"] = func(w *vfWorld, st vfStep, p *vfPrepared) *vfPrepared {
+		if st.Par != 0 || st.Serial {
+			// a monitor connecting while requests are in flight
+			p.task = func() { w.subscribeStart(int(st.N), st.A) }
+			return p
+		}
 		p.env = func() { w.subscribe(int(st.N), st.A) }
 		return p
 	}
 	vfExtraOps["unsubscribe"] = func(w *vfWorld, st vfStep, p *vfPrepared) *vfPrepared {
+		if st.Par != 0 || st.Serial {
+			p.task = func() {
+				if s := w.subs[int(st.N)]; s != nil && !s.closed {
+					s.closed = true
+					s.client.Close()
+				}
+			}
+			return p
+		}
 		p.env = func() {
 			if s := w.subs[int(st.N)]; s != nil && !s.closed {
 				s.closed = true
